@@ -40,16 +40,44 @@ use std::process::{Command, Stdio};
 pub struct CountingAlloc;
 thread_local! {
     static LIVE_ALLOCS: Cell<isize> = const { Cell::new(0) };
+    // bytes currently allocated by the calling thread and their high-water mark (K-dec allocation measurement, C06)
+    static LIVE_BYTES: Cell<isize> = const { Cell::new(0) };
+    static PEAK_BYTES: Cell<isize> = const { Cell::new(0) };
 }
 #[inline]
 fn bump(d: isize) {
     let _ = LIVE_ALLOCS.try_with(|c| c.set(c.get() + d));
+}
+#[inline]
+fn bump_bytes(d: isize) {
+    let _ = LIVE_BYTES.try_with(|c| {
+        let v = c.get() + d;
+        c.set(v);
+        let _ = PEAK_BYTES.try_with(|p| {
+            if v > p.get() {
+                p.set(v)
+            }
+        });
+    });
+}
+/// start a measurement: peak := current
+pub fn peak_reset() {
+    let cur = LIVE_BYTES.try_with(|c| c.get()).unwrap_or(0);
+    let _ = PEAK_BYTES.try_with(|p| p.set(cur));
+}
+/// bytes allocated above the level at the last peak_reset(), at the high-water mark
+pub fn peak_above(base: isize) -> isize {
+    PEAK_BYTES.try_with(|p| p.get()).unwrap_or(0) - base
+}
+pub fn live_bytes() -> isize {
+    LIVE_BYTES.try_with(|c| c.get()).unwrap_or(0)
 }
 unsafe impl GlobalAlloc for CountingAlloc {
     unsafe fn alloc(&self, l: Layout) -> *mut u8 {
         let p = System.alloc(l);
         if !p.is_null() {
             bump(1);
+            bump_bytes(l.size() as isize);
         }
         p
     }
@@ -57,15 +85,21 @@ unsafe impl GlobalAlloc for CountingAlloc {
         let p = System.alloc_zeroed(l);
         if !p.is_null() {
             bump(1);
+            bump_bytes(l.size() as isize);
         }
         p
     }
     unsafe fn dealloc(&self, p: *mut u8, l: Layout) {
         bump(-1);
+        bump_bytes(-(l.size() as isize));
         System.dealloc(p, l)
     }
     unsafe fn realloc(&self, p: *mut u8, l: Layout, n: usize) -> *mut u8 {
-        System.realloc(p, l, n) // one allocation before, one after: the count does not change
+        let q = System.realloc(p, l, n); // one allocation before, one after: the count does not change
+        if !q.is_null() {
+            bump_bytes(n as isize - l.size() as isize);
+        }
+        q
     }
 }
 #[global_allocator]
